@@ -423,6 +423,8 @@ def text_form(v):
             raise OutOfDomain('non-finite')
         if abs(v) >= 10 ** 9 or (v != 0 and abs(v) < 1e-4):
             raise OutOfDomain('float text form with an exponent')
+        if v == 0:
+            return '0'      # also for a minus zero (0/-5): Excel has no -0
         # 15 significant digits, general format: 3/3 -> 1, 0.1+0.2 -> 0.3, 2.50 -> 2.5
         r = '%.15g' % v
         if 'e' in r:
